@@ -234,6 +234,33 @@ def run_api_shapes(_):
                         what = "reactants/products" if (got and (got[0]["reactants"], got[0]["products"]) != (exp[0]["reactants"], exp[0]["products"])) or len(got) != len(exp) else "fields"
                         over = "beyond-format-capacity" if nr > 3 or np_ > 5 else "within-capacity"
                         viols.append((f"C18:api-shape:{over}:{what}", f"API reaction {r} -> {p} comes back as {got[0]['reactants'] if got else None} -> {got[0]['products'] if got else None} (and {len(got)} reactions)", case))
+        # networks that hold no reaction (a new network, a network after its reactions were removed or filtered out by
+        # the allowed list): the written file reads back to no reaction and the same species
+        for tag in ("new", "all-removed", "all-filtered", "only-required"):
+            n += 1
+            case = {"api_shape": ["empty", tag]}
+            with quiet():
+                rs = [Reaction(["H", "H2"], ["H2", "H"], 10.5, 300.25, 1e-11, 0.5, 3.0, ReactionType.GAS_TWOBODY, 7)]
+                if tag == "new":
+                    net = Network()
+                elif tag == "all-removed":
+                    net = Network(rs)
+                    net.remove_reaction(0)
+                elif tag == "all-filtered":
+                    net = Network(rs, allowed_species=["C", "O"])
+                else:
+                    net = Network(required_species=["H", "He"])
+                f = tmp / f"e_{tag}.naunet"
+                try:
+                    net.write(f, "naunet")
+                    back = Network(filelist=str(f), fileformats="naunet")
+                except Exception as e:
+                    viols.append((f"C18:empty-network:raises", f"{tag}: writing / reading a network without reactions raises {e!r}", case))
+                    continue
+            if len(net.reaction_list) != 0:
+                raise HarnessError(f"{tag}: expected an empty network")
+            if len(back.reaction_list) != 0:
+                viols.append((f"C18:empty-network:reactions-appear", f"{tag}: a network holding no reaction is written as {f.read_text()!r} and reads back with {len(back.reaction_list)} reaction(s): {[str(r) for r in back.reaction_list][:2]}", case))
         return n, viols
     finally:
         shutil.rmtree(tmp, ignore_errors=True)
